@@ -1,5 +1,7 @@
 package h2rig
 
+import "fmt"
+
 // Corpus: minimised histories of earlier failures; they always run first.
 
 func hdr(from string, id uint32, end bool, fields []Field, splits ...int) Op {
@@ -27,6 +29,21 @@ func winupd(from string, id, inc uint32) Op {
 var reqFields = []Field{{N: ":method", V: "POST"}, {N: ":scheme", V: "https"}, {N: ":path", V: "/a"}, {N: ":authority", V: "example.com"}, {N: "x-k", V: "v1"}}
 var respFields = []Field{{N: ":status", V: "200"}, {N: "content-type", V: "text/plain"}}
 
+// bigFieldFor returns a header list (one pseudo header + one big field) whose HPACK encoding by a fresh
+// encoder has exactly the given length.
+func bigFieldFor(target int) []Field {
+	n := target - 11
+	for tries := 0; tries < 8; tries++ {
+		fs := []Field{{N: ":method", V: "GET"}, {N: "x-big", V: "b", R: []int{5, n}}}
+		got := len(newEndpoint().encode(fs))
+		if got == target {
+			return fs
+		}
+		n += target - got
+	}
+	return []Field{{N: ":method", V: "GET"}, {N: "x-big", V: "b", R: []int{5, n}}}
+}
+
 // NamedCase is a corpus entry.
 type NamedCase struct {
 	Name  string
@@ -41,7 +58,12 @@ func Corpus() []NamedCase {
 	padOnly := Op{From: "C", Kind: "data", ID: 1, Len: 0, Padded: true, Pad: 40, Valid: true}
 	invalidMax := settings("S", 5, 0)
 	invalidMax.Valid = false
-	return []NamedCase{
+	var exact []NamedCase
+	for _, t := range []int{16378, 16379, 16380, 16382, 16384, 16385} {
+		exact = append(exact, NamedCase{fmt.Sprintf("priority-block-of-%d-octets", t), []Op{{From: "C", Kind: "headers", ID: 1, End: true,
+			Prio: &Prio{Dep: 0, Excl: false, Weight: 200}, Fields: bigFieldFor(t), Valid: true}}, true})
+	}
+	return append(exact, []NamedCase{
 		{"padded-data-credit", []Op{hdr("C", 1, false, reqFields), padded, padOnly, data("C", 1, 3, true)}, true},
 		{"max-frame-size-0", []Op{invalidMax, hdr("C", 1, false, nil), data("C", 1, 5, true)}, false},
 		{"headers-continuation-no-end-stream", []Op{hdr("C", 1, false, reqFields, 3), data("C", 1, 4, true)}, true},
@@ -65,9 +87,15 @@ func Corpus() []NamedCase {
 			data("C", 1, 70000, true), winupd("S", 0, 3000)}, true},
 		{"two-initial-window-values-in-one-settings-frame", []Op{hdr("C", 1, false, reqFields), data("C", 1, 70000, false),
 			winupd("S", 0, 100000), settings("S", 4, 100000, 4, 0)}, false},
+		{"header-blocks-released-together", []Op{settings("S", 4, 10), ack("C"),
+			hdr("C", 1, false, reqFields), data("C", 1, 50, false),
+			hdr("C", 1, true, []Field{{N: "x-t", V: "1"}, {N: "x-big", V: "b", R: []int{9, 40000}}}),
+			hdr("C", 3, false, reqFields), data("C", 3, 50, false),
+			hdr("C", 3, true, []Field{{N: "x-t", V: "3"}, {N: "x-big", V: "c", R: []int{77, 40000}}}),
+			settings("S", 4, 100000), ack("C")}, true},
 		{"window-blocking", []Op{settings("S", 4, 10), ack("C"), hdr("C", 1, false, reqFields), data("C", 1, 25, true),
 			winupd("S", 1, 5), winupd("S", 1, 10), winupd("S", 0, 1)}, true},
-	}
+	}...)
 }
 
 // Epilogue opens every window wide from both endpoints so that everything queued must be delivered.
